@@ -151,3 +151,26 @@ func VerifC16Agent() {
 		verifapi.Assert(notFound, "c16.agent-serves-nothing-else")
 	}
 }
+
+// VerifC16NoParams: a call that omits params (or sends null) has too few
+// parameters unless the method takes none: invalid-params, method not run.
+func VerifC16NoParams() {
+	srv := verifPoolServer()
+	ep := verifDocumented[verifapi.Choose("endpoint", len(verifDocumented))]
+	var params []byte
+	if verifapi.Bool("null") {
+		params = []byte("null")
+	}
+	before := verifapi.ReflectCalls()
+	resp := verifCall(srv, ep.name, params)
+	verifapi.Reach("c16.noparams")
+	ran := verifapi.ReflectCalls() - before
+	if len(ep.kinds) == 0 {
+		verifapi.Assert(ran == 1, "c16.parameterless-call-without-params-runs")
+		return
+	}
+	verifapi.Assert(ran == 0, "c16.missing-params-does-not-run-the-method")
+	verifapi.Assert(resp.Response != nil && resp.Error != nil, "c16.missing-params-is-an-error")
+	verifapi.Class("missing-params-reported-as-internal-error", true)
+	verifapi.Assert(resp.Response != nil && resp.Error != nil && resp.Error.Code == jsonrpc2.ErrCodeInvalidParams, "c16.missing-params-is-invalid-params")
+}
